@@ -203,7 +203,12 @@ mod verif_cex {
                 {
                     return false;
                 }
-                // Independent re-check against the file bytes.
+                // Independent re-check against the file bytes. An EMPTY key occupies no byte: its range
+                // is the single column where it was found (start == end >= 1, never column 0, never
+                // end < start); a non-empty key's columns slice exactly the key out of the file line.
+                if key.is_empty() {
+                    return *col_end == *col_start && *col_start >= 1;
+                }
                 let file_line = text.split('\n').nth(*line - 1).unwrap_or("");
                 file_line.as_bytes().get(col_start - 1..*col_end) == Some(key.as_bytes())
             }
@@ -335,6 +340,25 @@ mod verif_cex {
         Trim,
         Group,
         Plain,
+        /// keep-unique="(?P<value>z*)": the match can be EMPTY
+        EmptyGroup,
+        /// keep-unique="z*" (no group: whole match), can be EMPTY as well
+        EmptyPlain,
+    }
+
+    /// Patterns whose match can be empty: every line matches at offset 0 and the key is the leading
+    /// run of `z` bytes of the line, possibly "" (C07: "the `value` group (else the whole match) of
+    /// each matching line" - an empty key IS a key, so two lines `a` and `b` share the key ""). A
+    /// BLANK line never has a key, whatever the pattern matches.
+    const EMPTY_GROUP_PATTERN: &str = "(?P<value>z*)";
+    const EMPTY_PLAIN_PATTERN: &str = "z*";
+
+    /// ground truth for the two patterns above by a plain byte scan (no regex)
+    fn leading_z_span(line: &str) -> Option<(usize, usize)> {
+        if line.chars().all(char::is_whitespace) {
+            return None;
+        }
+        Some((0, line.bytes().take_while(|b| *b == b'z').count()))
     }
 
     fn key_span(sym: &Sym, mode: Mode) -> Option<(usize, usize)> {
@@ -342,6 +366,7 @@ mod verif_cex {
             Mode::Trim => trimmed_span(sym.text),
             Mode::Group => sym.group,
             Mode::Plain => sym.plain,
+            Mode::EmptyGroup | Mode::EmptyPlain => leading_z_span(sym.text),
         }
     }
 
@@ -350,6 +375,8 @@ mod verif_cex {
             Mode::Trim => if bare { "keep-unique".to_string() } else { "keep-unique=\"\"".to_string() },
             Mode::Group => format!("keep-unique=\"{GROUP_PATTERN}\""),
             Mode::Plain => format!("keep-unique=\"{PLAIN_PATTERN}\""),
+            Mode::EmptyGroup => format!("keep-unique=\"{EMPTY_GROUP_PATTERN}\""),
+            Mode::EmptyPlain => format!("keep-unique=\"{EMPTY_PLAIN_PATTERN}\""),
         }
     }
 
@@ -370,13 +397,29 @@ mod verif_cex {
     /// C07 oracle: the first line whose key equals the key of an earlier line (brute force over
     /// all earlier lines); blank / non-matching lines have no key. Returns (absolute byte offset, key).
     fn ref_first_duplicate(syms: &[Sym], offsets: &[usize], mode: Mode) -> Option<(usize, String)> {
-        let keys: Vec<Option<&str>> = syms.iter().map(|s| key_span(s, mode).map(|(a, b)| &s.text[a..b])).collect();
+        ref_first_duplicate_led(syms, offsets, mode, false)
+    }
+
+    /// `first_line_led_by_blank`: the content begins on the tag's own line, so the first content line
+    /// is the separating blank + the generated line; a pattern anchored at the line start (the
+    /// empty-match modes) then finds the EMPTY key in front of that blank.
+    fn ref_first_duplicate_led(syms: &[Sym], offsets: &[usize], mode: Mode, first_line_led_by_blank: bool) -> Option<(usize, String)> {
+        // (absolute byte offset of the key, key) per line; None = the line has no key
+        let keys: Vec<Option<(usize, &str)>> = syms
+            .iter()
+            .enumerate()
+            .map(|(i, s)| {
+                if i == 0 && first_line_led_by_blank && matches!(mode, Mode::EmptyGroup | Mode::EmptyPlain) {
+                    return leading_z_span(s.text).map(|_| (offsets[0] - 1, ""));
+                }
+                key_span(s, mode).map(|(a, b)| (offsets[i] + a, &s.text[a..b]))
+            })
+            .collect();
         for i in 0..syms.len() {
-            let Some(k) = keys[i] else { continue };
+            let Some((abs, k)) = keys[i] else { continue };
             for j in 0..i {
-                if keys[j] == Some(k) {
-                    let (a, _) = key_span(&syms[i], mode).unwrap();
-                    return Some((offsets[i] + a, k.to_string()));
+                if keys[j].map(|x| x.1) == Some(k) {
+                    return Some((abs, k.to_string()));
                 }
             }
         }
@@ -384,11 +427,14 @@ mod verif_cex {
     }
 
     fn ref_keep_unique(syms: &[Sym], built: &Built, mode: Mode) -> Expect {
-        match ref_first_duplicate(syms, &built.line_offsets, mode) {
+        let led_by_blank = !built.line_offsets.is_empty() && built.line_offsets[0] > 0 && built.text.as_bytes()[built.line_offsets[0] - 1] == b' ';
+        match ref_first_duplicate_led(syms, &built.line_offsets, mode, led_by_blank) {
             None => Expect::Clean,
             Some((abs, key)) => {
                 let (line, col) = line_col(&built.text, abs);
-                Expect::At { line, col_start: col, col_end: col + key.len() - 1, key }
+                // C10: the columns delimit the key; an empty key is the single column where it was found
+                let col_end = if key.is_empty() { col } else { col + key.len() - 1 };
+                Expect::At { line, col_start: col, col_end, key }
             }
         }
     }
@@ -400,7 +446,7 @@ mod verif_cex {
             "file_name": built.file_name,
             "file_text": built.text,
             "layout": layout_name(layout),
-            "keep-unique": match mode { Mode::Trim => json!(""), Mode::Group => json!(GROUP_PATTERN), Mode::Plain => json!(PLAIN_PATTERN) },
+            "keep-unique": match mode { Mode::Trim => json!(""), Mode::Group => json!(GROUP_PATTERN), Mode::Plain => json!(PLAIN_PATTERN), Mode::EmptyGroup => json!(EMPTY_GROUP_PATTERN), Mode::EmptyPlain => json!(EMPTY_PLAIN_PATTERN) },
             "content_lines": lines,
         });
         let context = match context_of(parsers, built.file_name, &built.text) {
@@ -491,6 +537,21 @@ mod verif_cex {
         //     (each case compiles a regex, ~1 ms in a debug build).
         for seq in sequences(&PATTERN_ALPHABET, 4) {
             run_fast(&parsers, &mut cache, &[Mode::Group, Mode::Plain], &seq, &mut cases);
+        }
+        // (b') patterns whose match can be EMPTY, `(?P<value>z*)` and `z*`: the key of a non-blank line
+        //      is its leading run of `z`, possibly "" - `a` and `b` both have the key "", so the second
+        //      of them is the duplicate, reported at the single column where the empty key was found;
+        //      a blank line has no key. Every sequence of <= 3 lines over 9 lines, layout 0; and <= 2
+        //      lines where the content begins on the tag's own line (2, 4) / the end tag shares the last line (3).
+        let empty_alphabet = [t("zb"), t("a"), t("zza"), t(""), t("   "), t("z"), t("b"), t("zz"), t(" zb")];
+        for seq in sequences(&empty_alphabet, 3) {
+            run_fast(&parsers, &mut cache, &[Mode::EmptyGroup, Mode::EmptyPlain], &seq, &mut cases);
+        }
+        for layout in [2usize, 3, 4] {
+            for seq in sequences(&empty_alphabet, 2) {
+                run_case(&parsers, layout, Mode::EmptyGroup, false, &seq, &mut cases);
+                run_case(&parsers, layout, Mode::EmptyPlain, false, &seq, &mut cases);
+            }
         }
         // (c) every comment layout (C10), `keep-unique=""` spelling.
         let small_trim = [t("a"), t("b"), t("  a "), t(""), t("\u{e9} b")];
@@ -652,7 +713,7 @@ mod verif_cex {
         cex_none(
             "V2",
             cases,
-            "no regex: all sequences of <=5 lines over {a,b,'  a','a  ','','   ',ab,A}; group regex and plain regex: all sequences of <=4 lines over 7 annotated lines (keys differing only outside the group/match, non-matching, blank); 6 comment layouts x sequences of <=3 (no regex) / <=2 (regex) lines; all pairs of sibling blocks and of one-block files with <=2 lines over {a,b,'  a',''}; 48 nested arrangements; 3 malformed-regex cases; 1500 random blocks of 6..=17 lines",
+            "no regex: all sequences of <=5 lines over {a,b,'  a','a  ','','   ',ab,A}; group regex and plain regex: all sequences of <=4 lines over 7 annotated lines (keys differing only outside the group/match, non-matching, blank); empty-match patterns `(?P<value>z*)` and `z*` (key = leading run of z, possibly empty - duplicates of the empty key; blank lines have no key): all sequences of <=3 lines over {zb,a,zza,'','   ',z,b,zz,' zb'}, and <=2 lines in the layouts where content begins on the tag's line / the end tag shares the last line; 6 comment layouts x sequences of <=3 (no regex) / <=2 (regex) lines; all pairs of sibling blocks and of one-block files with <=2 lines over {a,b,'  a',''}; 48 nested arrangements; 3 malformed-regex cases; 1500 random blocks of 6..=17 lines",
         );
     }
 }
